@@ -11,7 +11,7 @@ import unicodedata
 from vf import impl
 from vf.gen import values as V
 from vf.model.equal import all_distinct, jeq
-from vf.obs.monitor import LineCoverage, region_lines
+from vf.obs.monitor import region_lines, shared_coverage
 
 ID = "C08"
 LEVEL = "exploration"
@@ -142,8 +142,7 @@ def unique_arrays(ctx, rng, n):
 
 def run(ctx):
     impl.quiet()
-    cov = LineCoverage()
-    cov.start()
+    cov = shared_coverage()
     try:
         idx = 0
         rr = random.Random(2024)
@@ -181,7 +180,7 @@ def run(ctx):
         ctx.sample({"draft": 7, "schema": {"const": [0]}, "instance": [False]})
         ctx.sample({"draft": 3, "schema": {"uniqueItems": True}, "instance": [{"a": 0}, {"a": False}]})
     finally:
-        cov.stop()
+        pass
     hit = sorted(l for (base, qual, l) in cov.hit if base == "_utils.py" and qual == "uniq")
     regions = region_lines("_utils.py", "uniq")
     ctx.notes["uniq_lines_hit"] = hit
